@@ -2,6 +2,7 @@ import RedoModel.Wire
 import RedoModel.Paths
 import RedoModel.DoFiles
 import RedoModel.LogRec
+import RedoModel.Commit
 open RedoModel RedoModel.Wire
 
 def decList (s : String) : Option (List (List Char)) :=
@@ -22,6 +23,18 @@ def showOut (o : LogRec.Tagged) : String :=
   match o.out with
   | .record k t => "m:" ++ enc k ++ ":" ++ enc t
   | .raw l => "r:" ++ enc l
+
+def decStat (s : String) : Option (Option Commit.TStat) :=
+  if s = "-" then some none else
+  match s.splitOn "," with
+  | [k, m] => match m.toNat? with
+    | some m => if k = "d" then some (some ⟨true, m⟩) else if k = "f" then some (some ⟨false, m⟩) else none
+    | none => none
+  | _ => none
+
+def showOp : Commit.FsOp → String
+  | .unlinkTmp => "unlinkTmp" | .createTmpFromStdout => "createTmp"
+  | .renameTmpToTarget => "rename" | .unlinkTarget => "unlinkTarget"
 
 /-- One request line → one response line.  Unknown or malformed requests answer `bad-op`
 (never a default value). -/
@@ -83,6 +96,12 @@ def respond (line : String) : String :=
       | .error e => "err:" ++ (match e with
           | .outOfFuel => "fuel" | .unknownTarget => "unknown" | .badDone => "baddone" | .emptyText => "empty")
     | _, _ => "bad-op"
+  | ["commit-decide", b, a, sz, tmp, rv, rf] =>
+    match decStat b, decStat a, sz.toNat?, rv.toInt? with
+    | some b, some a, some sz, some rv =>
+      let d := Commit.decide { before := b, after := a, stdoutSize := sz, tmpExists := tmp == "1", rv := rv, renameFails := rf == "1" }
+      "ops=" ++ ",".intercalate (d.ops.map showOp) ++ " rv=" ++ toString d.rv ++ " ok=" ++ toString d.recordedOk
+    | _, _, _, _ => "bad-op"
   | _ => "bad-op"
 
 partial def loop (h : IO.FS.Stream) (out : IO.FS.Stream) : IO Unit := do
